@@ -373,6 +373,48 @@ def build_molecule(en: Enums, spec: dict, cls=None):
     return m
 
 
+def canon_ensemble(en: Enums, ens) -> list:
+    """the conformers of an ensemble as canonical molecules, taken from its ARRAYS (coords, atomic_charges, atoms,
+    bonds) — not through iteration or conformer views, which are what the writers use"""
+    import numpy as np
+
+    coords = np.asarray(ens.coords, dtype=float)
+    charges = np.asarray(ens.atomic_charges, dtype=float)
+    idx = {id(a): i for i, a in enumerate(ens.atoms)}
+    bonds = [(idx[id(b.a1)], idx[id(b.a2)], en.bi[en.BondType(b.btype)]) for b in ens.bonds]
+    out = []
+    for j in range(coords.shape[0]):
+        atoms = [{"e": en.ei[en.Element(a.element)], "t": en.ti[en.AtomType(a.atype)], "g": en.gi[en.AtomGeom(a.geom)],
+                  "label": a.label or "", "x": float(coords[j][i][0]), "y": float(coords[j][i][1]), "z": float(coords[j][i][2]),
+                  "c": float(charges[j][i]), "d": 1 if a.atype == en.AtomType.Dummy else 0} for i, a in enumerate(ens.atoms)]
+        out.append({"name": ens.name, "comment": ens.name, "atoms": atoms, "bonds": bonds})
+    return out
+
+
+def grow_ensemble(rng, en, ml, base: dict, make_conf, dump, n_ops: int):
+    """a write–grow–write history on ONE ConformerEnsemble: append / extend(list) / extend(ensemble) / iterate / dump in
+    a random order that always contains dump -> grow -> dump. `make_conf()` gives a new conformer (molli Molecule of the
+    same atoms), `dump(ens, step)` is called for every dump step. Returns the list of steps taken."""
+    ens = ml.ConformerEnsemble([make_conf() for _ in range(rng.range(1, 3))])
+    steps = []
+    plan = [rng.choice(["dump", "iterate", "append", "extend-list", "extend-ensemble"]) for _ in range(n_ops)]
+    plan += ["dump", rng.choice(["extend-list", "extend-ensemble", "append"]), "dump",
+             rng.choice(["extend-list", "extend-ensemble"]), "iterate", rng.choice(["append", "extend-list"]), "dump"]
+    for op in plan:
+        steps.append(op)
+        if op == "dump":
+            dump(ens, list(steps))
+        elif op == "iterate":
+            sum(1 for _ in ens)
+        elif op == "append":
+            ens.append(make_conf())
+        elif op == "extend-list":
+            ens.extend([make_conf() for _ in range(rng.range(1, 2))])
+        else:
+            ens.extend(ml.ConformerEnsemble([make_conf() for _ in range(rng.range(1, 2))]))
+    return steps
+
+
 def reentrant_dump(ens, method: str):
     """dump `ens` through a stream whose first write() starts a second, complete dump of the SAME ensemble (what a
     logging / tee stream or a second thread does): returns (outer text, inner text)"""
